@@ -56,6 +56,9 @@ def obligations(tier, seed):
         # inputs it fires on, which a 40-program sample rarely contains
         have = {sk.sid for sk in sks}
         jobs += [(sk, sk.meta["rule"]) for sk in poolfam.harvested_skeletons() if sk.meta.get("rule") and sk.sid not in have]
+        from vk import rulefam
+
+        jobs += [(sk, sk.meta["rule"]) for sk in rulefam.skeletons() if sk.meta.get("rule") and sk.sid not in have]
     for sk in sks:
         if sk.meta.get("rule"):
             jobs.append((sk, sk.meta["rule"]))
